@@ -641,6 +641,25 @@ def setup_case(case):
                  f"{key} changed from {old!r} to "
                  f"{after.get(key, '<absent>')!r} although its prompt was "
                  "skipped")
+    # fit-parameter entries that did not exist before and whose prompt was
+    # skipped hold the selected model's default (nothing else was entered)
+    from nanite import model as nmodel
+    try:
+        Pd = nmodel.get_init_parms(after.get("model_key"))
+    except BaseException:
+        Pd = None
+    for key, val in after.items():
+        if Pd is None or not key.startswith("fit param ") \
+                or key in touched or key in before:
+            continue
+        name, what = key[len("fit param "):].rsplit(" ", 1)
+        if name not in Pd or what not in ("value", "vary"):
+            continue
+        exp = Pd[name].value if what == "value" else Pd[name].vary
+        if not close(val, exp, 1e-12):
+            viol("answer-not-stored", "skipped:" + key,
+                 f"{key} = {val!r} was stored although its prompt was "
+                 f"skipped; the model's default is {exp!r}")
     os.remove(path)
     return out, after
 
